@@ -378,21 +378,20 @@ def _helper_handles_none(program, name):
     if key in _hn:
         return _hn[key]
     fn = program.fn('utils', name)
-    ex = sym.SymExec(fn)
+    # the helper partially evaluated at value = None (helpers it calls walked in place): whatever the spelling (`is None` first, `is not None`
+    # with an early return, a shared helper for the pattern), an absent value must end in a return, never in a raise
+    from .rules_help import helpers
+    p0n = [a.arg for a in fn.args.args][0]
+    ex = sym.SymExec(fn, bind={p0n: NONE}, inline=helpers(program))
     try:
         ex.run()
     except sym.Unsupported:
         _hn[key] = False
         return False
-    p0 = ('param', ex.params[0])
     res = False
-    for ev in ex.events:
-        if ev[0] == 'return' and ev[1] and sym.conj(ev[1])[0] == ('cmp', 'is', p0, NONE):
-            res = True
-            break
-        if ev[0] == 'raise' and ev[1] and sym.conj(ev[1])[0] == ('cmp', 'is', p0, NONE):
-            res = False
-            break
+    outs = [ev for ev in ex.events if ev[0] in ('return', 'raise')]
+    if outs:
+        res = all(ev[0] == 'return' and ev[2] != NONE for ev in outs)
     _hn[key] = res
     return res
 
